@@ -163,6 +163,31 @@ def palette_pairs(rng, limit):
     return [{"id": f"p{i}", "old": o, "new": n, "rel": rel, "cmp": False} for i, (o, n, rel) in enumerate(out)]
 
 
+def displaced_pairs():
+    """one sibling list edited by removals AND additions: k subtrees removed in front of a survivor, m added behind it
+    (and the mirror image), so that the survivor moves by up to three positions whatever the difference of the two
+    lengths is; removed and added subtrees share no shape with each other or with the survivor.  The plan must carry
+    the survivor (MaximalAtRoot of StateTree.tla)."""
+    survivors = [_fn({"k": "feed", "n": 1}), {"k": "mem", "n": 3}, _fn(E0, E0, {"k": "delay", "n": 2}), _fn({"k": "mem", "n": 3}, {"k": "feed", "n": 1})]
+    removed = [{"k": "mem", "n": 1}, {"k": "delay", "n": 4}, _fn({"k": "mem", "n": 2}), {"k": "feed", "n": 2}]
+    added = [{"k": "delay", "n": 8}, {"k": "delay", "n": 16}, _fn({"k": "delay", "n": 3}), {"k": "mem", "n": 5}]
+    out = []
+    for si, sv in enumerate(survivors):
+        for k in range(0, 4):
+            for m in range(0, 4):
+                if k + m == 0:
+                    continue
+                for keep_tail in (False, True):
+                    tail = [{"k": "mem", "n": 7}] if keep_tail else []
+                    old = _fn(*[clone(x) for x in removed[:k]], clone(sv), *[clone(x) for x in tail])
+                    new = _fn(clone(sv), *[clone(x) for x in added[:m]], *[clone(x) for x in tail])
+                    out.append((old, new))
+                    out.append((new, old))
+                    # the same inside a nested call
+                    out.append((_fn({"k": "feed", "n": 1}, old), _fn({"k": "feed", "n": 1}, new)))
+    return [{"id": f"d{i}", "old": o, "new": n, "rel": "none", "cmp": False} for i, (o, n) in enumerate(out)]
+
+
 def to_trace_record(req, res):
     plan = res.get("plan")
     return {"id": req["id"], "old": req["old"], "new": req["new"], "rel": req.get("rel", "none"),
@@ -262,7 +287,7 @@ def run(tier):
     # 4. impl -> spec: predicates on real plans
     nrand = 1500 if tier == "quick" else 20000
     nsample = 1500 if tier == "quick" else 10000
-    rp = random_pairs(rng, nrand) + palette_pairs(rng, 12000 if tier == "quick" else 80000)
+    rp = random_pairs(rng, nrand) + palette_pairs(rng, 12000 if tier == "quick" else 80000) + displaced_pairs()
     rres = vlib.run_harness("tree", rp, timeout_per_req=5.0)
     records = []
     for req, out, crash in rres:
